@@ -32,6 +32,16 @@ Fixpoint dc_root_loop (fuel h : nat) (bit : nat -> bool) (cur zeroh : hash) (bra
   end.
 Definition dc_root (H : nat) (bit_size : nat -> bool) (branch : nat -> hash) : hash :=
   dc_root_loop H 0 bit_size z0 z0 branch.
+
+(* calculateRoot(leafHash, smtProof, index): node = leafHash; for each height: bit `height` of index set =>
+   H(smtProof[height], node) else H(node, smtProof[height]). verifyMerkleProof = (calculateRoot(...) == root). *)
+Fixpoint dc_calc_loop (fuel h : nat) (bit : nat -> bool) (cur : hash) (proof : nat -> hash) : hash :=
+  match fuel with
+  | O => cur
+  | S fuel' => dc_calc_loop fuel' (S h) bit (if bit h then node (proof h) cur else node cur (proof h)) proof
+  end.
+Definition dc_calculate_root (H : nat) (bit_index : nat -> bool) (leaf : hash) (proof : nat -> hash) : hash :=
+  dc_calc_loop H 0 bit_index leaf proof.
 End DepositContract.
 
 (* ---- executable instance over Keccak, N-indexed ---- *)
@@ -43,6 +53,11 @@ Definition dc_deposit (c : dcontract) (leaf : N) : dcontract :=
   let size := dc_count c + 1 in
   mkDC size (cache_to_list 32 (dc_add nodeN 32 (bitsN size) leaf (cache_of_list 0 (dc_branch c)))).
 Definition dc_get_root (c : dcontract) : N := dc_root nodeN 0 32 (bitsN (dc_count c)) (cache_of_list 0 (dc_branch c)).
+(* bytes32[32] smtProof: the ABI fixes the length; a shorter list reads 0 (the harness always passes 32 entries) *)
+Definition dc_calculate_rootN (leaf : N) (proof : list N) (index : N) : N :=
+  dc_calculate_root nodeN 32 (bitsN index) leaf (cache_of_list 0 proof).
+Definition dc_verify_merkle_proof (leaf : N) (proof : list N) (index root : N) : bool :=
+  N.eqb (dc_calculate_rootN leaf proof index) root.
 
 (* PolygonZkEVMBridgeV2.getLeafValue: keccak256(abi.encodePacked(uint8 leafType, uint32 originNetwork, address originAddress,
    uint32 destinationNetwork, address destinationAddress, uint256 amount, bytes32 metadataHash)) *)
